@@ -135,6 +135,12 @@ def run(chk):
       metrics[-1]['stream'] = stream[:rng.randint(2, 12)]
       n = len(metrics[-1]['stream'])
       metrics[-1]['partitions'] = [[1] * n, [n], [n // 2, n - n // 2], [1, n - 1]]
+  # values whose mean is large relative to their spread (float32 cancellation if the variance is not computed from deviations)
+  for _ in range(12 if thorough else 4):
+    n = rng.randint(6, 20)
+    stream = [1000 + rng.randint(-21, 21) / 7 for _ in range(n)]
+    cuts = sorted(rng.sample(range(1, n), min(3, n - 1)))
+    metrics.append({'stream': stream, 'partitions': [[n], [b - a for a, b in zip([0] + cuts, cuts + [n])], [n // 2, n - n // 2]], 'offset': True})
   accs = []
   for _ in range(60 if thorough else 12):
     n = rng.randint(1, 6)
@@ -244,6 +250,12 @@ Definition chk (c : list var * nfilt * nat * list (list Z)) : bool :=
         continue
       x = r['ok']
       f = lambda k: x[k][0] / x[k][1]
+      if c.get('offset'):
+        # float32 can hold these statistics to about 1e-4 relative when the variance is accumulated from deviations
+        if not (abs(f('mean') - mean) <= 1e-5 * abs(mean) and abs(f('std') ** 2 - var) <= 1e-3 * var and x['count'] == n):
+          chk.violation('oracle', 'Welford on values with a large mean and a small spread (1000 +- 3): the reported mean / variance is off by more than 1e-3 relative, or depends on the batching',
+                        {'stream': c['stream'], 'partition': part, 'observed': {'mean': f('mean'), 'variance': f('std') ** 2}, 'expected': {'mean': mean, 'variance': var}})
+        continue
       ok = close(f('avg'), mean) and close(f('mean'), mean) and close(f('std') ** 2, var) and close(f('sem') ** 2 * c.get('rep', 1), var / n) and x['count'] == n * c.get('rep', 1) and \
           close(f('mm_a'), mean) and close(f('mm_mean'), mean) and x['reset_ok'] and x['after_reset'] == 3.0
       if not ok:
